@@ -193,6 +193,12 @@ func deepClone(rv reflect.Value) reflect.Value {
 		}
 		return newMap
 
+	case reflect.Interface:
+		if rv.IsNil() {
+			return rv
+		}
+		return deepClone(rv.Elem())
+
 	default:
 		return rv
 	}
